@@ -1946,12 +1946,17 @@ public:
     {
         struct sort_greater
         {
+            sort_greater(char cur_seq) : cur_seq_(cur_seq) {}
             bool operator()(
                 typename deferred_events_queue_t::value_type const& d1,
                 typename deferred_events_queue_t::value_type const& d2)
             {
-                return d1.second > d2.second;
+                // compare the distance to the current sequence number,
+                // which stays correct when the counter wraps around
+                return static_cast<unsigned char>(d1.second - cur_seq_) >
+                       static_cast<unsigned char>(d2.second - cur_seq_);
             }
+            char cur_seq_;
         };
         struct set_sequence
         {
@@ -2012,7 +2017,7 @@ public:
                 std::stable_sort(
                     m_events_queue.m_deferred_events_queue.begin(),
                     m_events_queue.m_deferred_events_queue.end(),
-                    sort_greater()
+                    sort_greater(m_events_queue.m_cur_seq)
                 );
                 // reset sequence number for all
                 std::for_each(
